@@ -9,7 +9,7 @@ def register(R):
     R.fields_of("MatchesAny", matchers="tuple[AMatcher]")
     R.fields_of("Not", matcher="AMatcher")
     R.fields_of("Annotate", matcher="AMatcher", annotation="any")
-    R.fields_of("MismatchesAll", mismatches="list", _wrap="bool")
+    R.fields_of("MismatchesAll", mismatches="list[AMismatch]", _wrap="bool")
     R.fields_of("AllMatch", matcher="AMatcher")
     R.fields_of("AnyMatch", matcher="AMatcher")
     R.fields_of("AfterPreprocessing", matcher="AMatcher", preprocessor="PureFn", annotate="bool")
